@@ -293,6 +293,18 @@ def _scn_methods():
         sub = L['RecSubscriber'](self.world, side, uid, dirn, n0=n0, refill=spec.get('refill', 0),
                                  raise_at=spec.get('raise_at'), cancel_at=spec.get('cancel_at'))
         st['sub'][dirn] = sub
+        if spec.get('on_error_start') is not None:
+            # the application retries from inside on_error (what a retry operator does): start another interaction
+            orig_err = sub.on_error
+            target = spec['on_error_start']
+
+            def on_error(exc, _orig=orig_err):
+                _orig(exc)
+                if not self.world.frozen and target not in self.st:
+                    self.world.ev(side, 'retry_from_on_error', uid=uid, starts=target)
+                    self.start(target)
+
+            sub.on_error = on_error
         if request_on_subscribe:
             orig = sub.on_subscribe
 
@@ -319,8 +331,8 @@ def _scn_methods():
         return True
 
     def start(self, i):
-        if i >= len(self.inter):
-            return False
+        if i >= len(self.inter) or i in self.st:
+            return False  # (an interaction is started once; a retry hook may already have started it)
         spec = self.inter[i]
         uid = i
         side = spec['side']
@@ -449,6 +461,12 @@ def _scn_methods():
             self.world.ev(raw.side, 'hand', uid=uid, dir=dirn, idx=idx, data=d, metadata=m, complete=complete, raw=True)
             raw.send_value({'type': 'PAYLOAD', 'sid': sid, 'next': True, 'complete': complete, 'data': d,
                             'metadata': m if m else None})
+        elif kind == 'frag':
+            # a non-final fragment of a payload train (the train is closed by a later next / next_complete, or abandoned)
+            n = arg if isinstance(arg, int) and arg else 7
+            self.world.ev(raw.side, 'raw_frag', uid=uid, dir=dirn, n=n)
+            raw.send_value({'type': 'PAYLOAD', 'sid': sid, 'follows': True, 'next': True, 'complete': False,
+                            'data': b'f' * n, 'metadata': None})
         elif kind == 'complete':
             self.world.ev(raw.side, 'hand_end', uid=uid, dir=dirn, how='complete', raw=True)
             raw.send_value({'type': 'PAYLOAD', 'sid': sid, 'next': False, 'complete': True, 'data': b'', 'metadata': None})
